@@ -4,6 +4,37 @@ _NOTE = ("Trusted base: CPython 3.12 ast parser, the rule slot tables (confirmed
          "CFG/dominator code. Decides only the named structural clauses (necessary conditions); the runtime behaviour as a whole is not decided.")
 
 CLAIMED = {
+    "C21": {
+        "text": "Decided on every run: progress-or-raise of the topological loop (no path back to the loop head without shrinking the work list, no exit with unsorted "
+                "fields, no-candidate => EvaluationError), whole-word escaped dependency edges in the right direction, evaluation in the computed order with "
+                "publish-on-every-path, copy-on-entry scoping for every caller of the evaluator plus a census of all symbol-table stores, and shadowing order in "
+                "eval() and the arch post-call. Right level: cycles, key orders and scopes are quantified over all specs; termination and scoping are CFG/def-use facts.",
+        "design_ref": "DESIGN.md section 3, C21", "note": _NOTE,
+        "technique": "static analysis: CFG path/dominance rules (progress, must-pass-through), regex-argument shape, who-may-write census (ast)",
+    },
+    "C22": {
+        "text": "Decided on every run: dunder/operator agreement and operand order for InvertibleSet, oset and fzs; results stay in the operand's space; the Other key is "
+                "evaluated last, starts at All, is reduced by every key on every path, appears at most once, overlaps raise; the named sets of an Einsum are built "
+                "from the right collections over one full space. Right level: set algebra laws follow from each dunder applying Python's corresponding operator, "
+                "which is a table check over the source.",
+        "design_ref": "DESIGN.md section 3, C22", "note": _NOTE + " Python's eval is trusted to dispatch operators to the dunders.",
+        "technique": "static analysis: table agreement (dunder vs operator), field-copy rule, ordering/dominance rules in the dict evaluator (ast/CFG)",
+    },
+    "C25": {
+        "text": "Decided on every run: isinstance dispatch chains over architecture nodes are exhaustive over the node union declared on Branch.nodes, end in a raise and "
+                "route every class to the intended arm (class-hierarchy simulation, subclass-after-superclass detection); only the requested compute is appended, "
+                "flattening stops after it, Forks without it are skipped; the node list is append-only in declaration order; the top-level entry validates the result.",
+        "design_ref": "DESIGN.md section 3, C25", "note": _NOTE,
+        "technique": "static analysis: exhaustiveness/ordering of isinstance chains via class-hierarchy simulation + control-dependence rules (ast/CFG)",
+    },
+    "C23": {
+        "text": "Decided on every run: full-coverage parsing of the concise form (regex ASTs decide anchoring; findall must be backed by a residue check whose class covers "
+                "identifier and bracket characters; whitespace-between-names test precedes stripping), all reject paths raise, and merge rules (collision/unknown tensor "
+                "raise, name and tensor list from the string, shorthand sibling agreement, output flag only on the left-hand side). Right level: 'malformed input is "
+                "rejected' quantifies over all strings; partial-match APIs without a residue check are a structural defect.",
+        "design_ref": "DESIGN.md section 3, C23", "note": _NOTE + " The stdlib re._parser is used to read regex structure.",
+        "technique": "static analysis: regex-AST anchoring analysis + API-usage rule (total match) + reject-path rule (ast/CFG)",
+    },
     "C11": {
         "text": "Kernel soundness lints decided on every run over fast_pareto.py/pareto.py: no acceptance test is gated by a running bound seeded from a finite "
                 "literal; comparison dtype never narrower than the input (known finding F-C11-2); exact shape of the window dominance predicate; block-constant "
